@@ -321,10 +321,13 @@ func init() {
 			if i > ctx.N(24, 96)+20 && i <= ctx.N(24, 96)+26 {
 				return titledNestedArrayCase(i - ctx.N(24, 96) - 21)
 			}
+			if i > ctx.N(24, 96)+26 && i <= ctx.N(24, 96)+29 {
+				return allOfOrderArrayLimitCase(i - ctx.N(24, 96) - 27)
+			}
 			if i == ctx.N(24, 96) {
 				return sharedNodeWitness()
 			}
-			if i > ctx.N(24, 96)+26 {
+			if i > ctx.N(24, 96)+29 {
 				return nil
 			}
 			return sharedNodeCase(i, r)
@@ -352,6 +355,9 @@ func init() {
 			}
 			if i < 149 {
 				return refEnumCase(i - 146)
+			}
+			if i < 155 {
+				return typeListEnumCase(i - 149)
 			}
 			return nil
 		},
@@ -386,7 +392,10 @@ func init() {
 			if i < 83 {
 				return allOfDefaultCase(i - 80)
 			}
-			return sameNameTwinCase(ctx, i-83, r)
+			if i < 85 {
+				return nullableArrayDefaultCase(i - 83)
+			}
+			return sameNameTwinCase(ctx, i-85, r)
 		},
 		values: true, defaults: true,
 		nQuick: 400, nThor: 6000, valid: 3, perSite: 3, maxDocs: 120, minDec: 2000,
@@ -446,6 +455,8 @@ func init() {
 					return c
 				} else if k -= 8; k < 6 {
 					return ecmaPatternCase(k)
+				} else if k -= 6; k < 8 {
+					return undeclaredRequiredCase(k)
 				}
 				return nil
 			}
@@ -2086,6 +2097,12 @@ func strataForC01(ctx *Ctx) []*sem.Case {
 	add(6, propsNextToAllOfCase)
 	add(6, aliasDefinitionCase)
 	add(6, ecmaPatternCase)
+	add(2, nullableArrayDefaultCase)
+	add(2, legacyNumericKeywordCase)
+	add(6, typeListEnumCase)
+	add(3, allOfOrderArrayLimitCase)
+	add(8, undeclaredRequiredCase)
+	add(4, sameNameDefTwoFilesCase)
 	add(12, objectDefaultCase)
 	add(12, nullableDefCase)
 	add(16, nestedOverlapCase)
@@ -2268,7 +2285,9 @@ func extFieldCase(i int) *sem.Case {
 		}
 		return a
 	}
-	add := func(class string, o jsonx.Obj) { c.Docs = append(c.Docs, docgen.Doc{V: o, Class: class, Label: "ext-field"}) }
+	add := func(class string, o jsonx.Obj) {
+		c.Docs = append(c.Docs, docgen.Doc{V: o, Class: class, Label: "ext-field"})
+	}
 	add("valid", base)
 	for _, v := range []int64{0, 1, 10, 11} {
 		add("bound", with("attempts", jsonx.N(v)))
@@ -2683,6 +2702,11 @@ func ignoredKeywordCase(i int) *sem.Case {
 		{Name: "kind", S: &sg.Schema{Types: []string{"string"}, Extra: jsonx.Obj{{K: "const", V: "card"}}}},
 		{Name: "mail", S: &sg.Schema{Types: []string{"string"}, Format: "email", Extra: jsonx.Obj{{K: "contentMediaType", V: "text/plain"}}}},
 		{Name: "uid", S: &sg.Schema{Types: []string{"string"}, Format: "uuid"}},
+		// format names are case sensitive: these are unknown formats, i.e. annotations
+		{Name: "when", S: &sg.Schema{Types: []string{"string"}, Format: "Date"}},
+		{Name: "host", S: &sg.Schema{Types: []string{"string"}, Format: "IPv4"}},
+		{Name: "stamp", S: &sg.Schema{Types: []string{"string", "null"}, Format: "DATE-TIME"}},
+		{Name: "at", S: &sg.Schema{Types: []string{"string"}, Format: "Time"}},
 		{Name: "tags", S: &sg.Schema{Types: []string{"array"}, Items: str(), Extra: jsonx.Obj{{K: "uniqueItems", V: true}, {K: "contains", V: jsonx.Obj{{K: "const", V: "a"}}}, {K: "minContains", V: jsonx.N(1)}}}},
 		{Name: "labels", S: &sg.Schema{Types: []string{"object"}, AddProps: str(), Extra: jsonx.Obj{{K: "propertyNames", V: jsonx.Obj{{K: "pattern", V: "^(?!_)[a-z_]+$"}}}}}},
 	}, Required: []string{"name", "billing_address"}, Extra: kw}
@@ -2703,6 +2727,8 @@ func ignoredKeywordCase(i int) *sem.Case {
 		{{K: "name", V: "Ann"}, {K: "billing_address", V: "1 Main St"}, {K: "credit_card", V: "4111"}, {K: "kind", V: "card"}, {K: "mail", V: "a@b.example"}, {K: "uid", V: "123e4567-e89b-12d3-a456-426614174000"}},
 		{{K: "name", V: "Ann"}, {K: "billing_address", V: "1 Main St"}, {K: "tags", V: []any{"a", "b"}}, {K: "labels", V: jsonx.Obj{{K: "team", V: "x"}, {K: "cost_center", V: "y"}}}},
 		{{K: "name", V: "Ann"}, {K: "billing_address", V: "1 Main St"}, {K: "labels", V: jsonx.Obj{}}, {K: "tags", V: []any{"a"}}},
+		{{K: "name", V: "Ann"}, {K: "billing_address", V: "1 Main St"}, {K: "when", V: "next tuesday"}, {K: "host", V: "localhost"}, {K: "stamp", V: "soon"}, {K: "at", V: "noon"}},
+		{{K: "name", V: "Ann"}, {K: "billing_address", V: "1 Main St"}, {K: "when", V: "2024-02-29"}, {K: "host", V: "10.0.0.1"}, {K: "stamp", V: nil}, {K: "at", V: "10:00:00"}},
 	}
 	for _, v := range valid {
 		c.Docs = append(c.Docs, docgen.Doc{V: wrap(v), Class: "valid", Label: "valid-under-the-full-keyword"})
@@ -2728,7 +2754,9 @@ func refEnumCase(i int) *sem.Case {
 			{Name: "inlineList", S: &sg.Schema{Types: []string{"array"}, Items: narrowed()}}, {Name: "plain", S: &sg.Schema{Ref: "#/$defs/Name", Target: name}}}}
 	c := &sem.Case{Root: root, Sig: fmt.Sprintf("ref-enum/%d", i%3), NoAuto: true}
 	m0 := members[0].(string)
-	add := func(o jsonx.Obj, st string) { c.Docs = append(c.Docs, docgen.Doc{V: o, Class: "enum", Label: "ref-enum", Stated: st}) }
+	add := func(o jsonx.Obj, st string) {
+		c.Docs = append(c.Docs, docgen.Doc{V: o, Class: "enum", Label: "ref-enum", Stated: st})
+	}
 	for _, v := range []struct {
 		val string
 		st  string
@@ -2892,7 +2920,7 @@ func nestedSameDefCase(i int) *sem.Case {
 func propsNextToAllOfCase(i int) *sem.Case {
 	mk := func() *sg.Schema {
 		return &sg.Schema{Types: []string{"object"},
-			Props: []sg.Prop{{Name: "level", S: &sg.Schema{Types: []string{"integer"}, Min: sg.Fp(0), Max: sg.Fp(255)}}, {Name: "offset", S: &sg.Schema{Types: []string{"integer"}, Min: sg.Fp(-128), Max: sg.Fp(100)}}, {Name: "tag", S: &sg.Schema{Types: []string{"string"}, MinLen: 2}}},
+			Props:    []sg.Prop{{Name: "level", S: &sg.Schema{Types: []string{"integer"}, Min: sg.Fp(0), Max: sg.Fp(255)}}, {Name: "offset", S: &sg.Schema{Types: []string{"integer"}, Min: sg.Fp(-128), Max: sg.Fp(100)}}, {Name: "tag", S: &sg.Schema{Types: []string{"string"}, MinLen: 2}}},
 			Required: []string{"level"},
 			AllOf:    []*sg.Schema{{Types: []string{"object"}, Props: []sg.Prop{{Name: "id", S: &sg.Schema{Types: []string{"integer"}, Min: sg.Fp(1), Max: sg.Fp(65535)}}}, Required: []string{"id"}}}}
 	}
@@ -2986,6 +3014,158 @@ func ecmaPatternCase(i int) *sem.Case {
 		{{K: "displayName", V: "x"}}, {{K: "login", V: "alice"}, {K: "other", V: "bob"}, {K: "nul", V: nil}, {K: "viaDef", V: "carol"}}, {{K: "login", V: "alice"}, {K: "nul", V: "x1"}}, {{K: "login", V: "a1"}, {K: "viaDef", V: "b2"}},
 	} {
 		c.Docs = append(c.Docs, docgen.Doc{V: d, Class: "formatparity", Label: "ecma-pattern"})
+	}
+	return c
+}
+
+// nullableArrayDefaultCase: array properties whose type list allows null (either order), with a default: absent and
+// an explicit null take the default, a present value (also the empty array) is kept.
+func nullableArrayDefaultCase(i int) *sem.Case {
+	tl := []string{"array", "null"}
+	if i%2 == 1 {
+		tl = []string{"null", "array"}
+	}
+	root := &sg.Schema{Types: []string{"object"}, Props: []sg.Prop{
+		{Name: "tags", S: &sg.Schema{Types: tl, Items: &sg.Schema{Types: []string{"string"}}, Default: []any{"a", "b"}, HasDefault: true}},
+		{Name: "ports", S: &sg.Schema{Types: tl, Items: &sg.Schema{Types: []string{"integer"}}, Default: []any{jsonx.N(80)}, HasDefault: true}},
+		{Name: "name", S: &sg.Schema{Types: []string{"string"}}}}}
+	c := &sem.Case{Root: root, Sig: fmt.Sprintf("nullable-array-default/%d", i%2), NoAuto: true}
+	for _, d := range []jsonx.Obj{{}, {{K: "tags", V: nil}}, {{K: "name", V: nil}, {K: "tags", V: nil}, {K: "ports", V: nil}}, {{K: "tags", V: []any{"x"}}}, {{K: "tags", V: []any{}}, {K: "ports", V: []any{}}}, {{K: "ports", V: nil}, {K: "tags", V: []any{"y"}}}} {
+		c.Docs = append(c.Docs, docgen.Doc{V: d, Class: "default", Label: "nullable-array-default"})
+	}
+	return c
+}
+
+// legacyNumericKeywordCase: numeric schemas that carry keywords of drafts before draft-04 (divisibleBy,
+// minimumCanEqual / maximumCanEqual), which later drafts - and the statements - do not know: values inside the stated
+// bounds are accepted whatever those keywords say.
+func legacyNumericKeywordCase(i int) *sem.Case {
+	ex := func(k string, v any) jsonx.Obj { return jsonx.Obj{{K: k, V: v}} }
+	step := &sg.Schema{Types: []string{"integer"}, Min: sg.Fp(0), Max: sg.Fp(20), Extra: ex("divisibleBy", jsonx.N(5))}
+	root := &sg.Schema{Types: []string{"object"}, Defs: []sg.Prop{{Name: "Step", S: step}}, Props: []sg.Prop{
+		{Name: "count", S: &sg.Schema{Types: []string{"integer"}, Min: sg.Fp(0), Max: sg.Fp(10), Extra: ex("divisibleBy", jsonx.N(3))}},
+		{Name: "ratio", S: &sg.Schema{Types: []string{"number", "null"}, ExMin: 0.0, Max: sg.Fp(2), Extra: ex("divisibleBy", jsonx.Num("0.5"))}},
+		{Name: "even", S: &sg.Schema{Types: []string{"integer"}, MultipleOf: sg.Fp(2), Extra: ex("divisibleBy", jsonx.N(7))}},
+		{Name: "open", S: &sg.Schema{Types: []string{"number"}, Min: sg.Fp(1), Max: sg.Fp(9), Extra: jsonx.Obj{{K: "minimumCanEqual", V: false}, {K: "maximumCanEqual", V: false}}}},
+		{Name: "step", S: &sg.Schema{Ref: "#/$defs/Step", Target: step}}}}
+	if i%2 == 1 {
+		root.Required = []string{"count"}
+	}
+	c := &sem.Case{Root: root, Sig: fmt.Sprintf("legacy-numeric-keyword/%d", i%2), NoAuto: true}
+	base := jsonx.Obj{{K: "count", V: jsonx.N(3)}}
+	for _, kv := range []struct {
+		k    string
+		vals []string
+	}{{"count", []string{"0", "4", "10", "11", "-1"}}, {"ratio", []string{"0", "0.75", "2", "2.5"}}, {"even", []string{"2", "7", "14", "3"}}, {"open", []string{"1", "5", "9", "0.5", "9.5"}}, {"step", []string{"0", "12", "20", "21"}}} {
+		for _, v := range kv.vals {
+			o := jsonx.Obj{}
+			for _, b := range base {
+				if b.K != kv.k {
+					o = append(o, b)
+				}
+			}
+			c.Docs = append(c.Docs, docgen.Doc{V: append(o, jsonx.KV{K: kv.k, V: jsonx.Num(v)}), Class: "bound", Label: "legacy-numeric-keyword"})
+		}
+	}
+	return c
+}
+
+// typeListEnumCase: enums whose "type" is a list (["integer","null"], ["integer","string"], ["number","null"],
+// ["boolean","null"], ["string","null"]) and whose values are of several JSON types, as a definition behind a
+// required reference and inline: every listed value is accepted and re-marshals to itself, others are rejected.
+func typeListEnumCase(i int) *sem.Case {
+	kinds := []struct {
+		types []string
+		vals  []any
+		non   []any
+	}{
+		{[]string{"integer", "null"}, []any{jsonx.N(1), jsonx.N(2), jsonx.N(3), nil}, []any{jsonx.N(4), "1"}},
+		{[]string{"integer", "string"}, []any{jsonx.N(1), "a"}, []any{jsonx.N(2), "b"}},
+		{[]string{"number", "null"}, []any{jsonx.Num("1.5"), jsonx.N(2), nil}, []any{jsonx.N(3)}},
+		{[]string{"boolean", "null"}, []any{true, nil}, []any{false}},
+		{[]string{"string", "null"}, []any{"x", nil}, []any{"y", jsonx.N(1)}},
+		{[]string{"null", "integer"}, []any{jsonx.N(7), nil}, []any{jsonx.N(8)}},
+	}
+	k := kinds[i%len(kinds)]
+	mk := func() *sg.Schema { return &sg.Schema{Types: k.types, HasEnum: true, Enum: k.vals} }
+	def := mk()
+	root := &sg.Schema{Types: []string{"object"}, Defs: []sg.Prop{{Name: "Priority", S: def}}, Required: []string{"priority"},
+		Props: []sg.Prop{{Name: "priority", S: &sg.Schema{Ref: "#/$defs/Priority", Target: def}}, {Name: "inline", S: mk()}, {Name: "list", S: &sg.Schema{Types: []string{"array"}, Items: mk()}}}}
+	c := &sem.Case{Root: root, Sig: fmt.Sprintf("type-list-enum/%d", i%len(kinds)), NoAuto: true}
+	for _, v := range k.vals {
+		c.Docs = append(c.Docs, docgen.Doc{V: jsonx.Obj{{K: "priority", V: v}}, Class: "enum", Label: "member", Stated: "accept"},
+			docgen.Doc{V: jsonx.Obj{{K: "priority", V: k.vals[0]}, {K: "inline", V: v}, {K: "list", V: []any{v}}}, Class: "enum", Label: "member", Stated: "accept"})
+	}
+	for _, v := range k.non {
+		c.Docs = append(c.Docs, docgen.Doc{V: jsonx.Obj{{K: "priority", V: v}}, Class: "enum", Label: "non-member", Stated: "reject"},
+			docgen.Doc{V: jsonx.Obj{{K: "priority", V: k.vals[0]}, {K: "inline", V: v}}, Class: "enum", Label: "non-member", Stated: "reject"})
+	}
+	return c
+}
+
+// allOfOrderArrayLimitCase: an object whose own array property (or an inline allOf member's) states limits that
+// DIFFER from the limits a later member given by reference states for the same array: under the recorded finding
+// allof-same-keyword-first-wins the first statement counts - whatever the order of inline and referenced members.
+func allOfOrderArrayLimitCase(i int) *sem.Case {
+	str := func() *sg.Schema { return &sg.Schema{Types: []string{"string"}} }
+	base := &sg.Schema{Types: []string{"object"}, Props: []sg.Prop{{Name: "tags", S: &sg.Schema{Types: []string{"array"}, Items: str(), MinItems: 1, MaxItems: 8}}, {Name: "id", S: &sg.Schema{Types: []string{"integer"}}}}}
+	ownTags := func() *sg.Schema { return &sg.Schema{Types: []string{"array"}, Items: str(), MinItems: 2, MaxItems: 4} }
+	refB := func() *sg.Schema { return &sg.Schema{Ref: "#/$defs/Base", Target: base} }
+	var dev *sg.Schema
+	switch i % 3 {
+	case 0:
+		dev = &sg.Schema{Types: []string{"object"}, Props: []sg.Prop{{Name: "tags", S: ownTags()}}, AllOf: []*sg.Schema{refB()}}
+	case 1:
+		dev = &sg.Schema{AllOf: []*sg.Schema{{Types: []string{"object"}, Props: []sg.Prop{{Name: "tags", S: ownTags()}}}, refB()}}
+	case 2:
+		dev = &sg.Schema{AllOf: []*sg.Schema{refB(), {Types: []string{"object"}, Props: []sg.Prop{{Name: "tags", S: ownTags()}}}}}
+	}
+	root := &sg.Schema{Types: []string{"object"}, Defs: []sg.Prop{{Name: "Base", S: base}}, Props: []sg.Prop{{Name: "dev", S: dev}}}
+	c := &sem.Case{Root: root, Sig: fmt.Sprintf("allof-order-array-limit/%d", i%3), NoAuto: true}
+	for _, n := range []int{0, 1, 2, 4, 5, 8, 9} {
+		var a []any
+		for k := 0; k < n; k++ {
+			a = append(a, fmt.Sprintf("t%d", k))
+		}
+		if a == nil {
+			a = []any{}
+		}
+		c.Docs = append(c.Docs, docgen.Doc{V: jsonx.Obj{{K: "dev", V: jsonx.Obj{{K: "tags", V: a}}}}, Class: "items", Label: fmt.Sprintf("len-%d", n)})
+	}
+	c.Docs = append(c.Docs, docgen.Doc{V: jsonx.Obj{{K: "dev", V: jsonx.Obj{{K: "tags", V: nil}}}}, Class: "nullok", Label: "null"})
+	return c
+}
+
+// undeclaredRequiredCase: a required list that names a key which is not declared under properties, on objects with
+// declared properties and every form of additionalProperties (typed, untyped, true, absent): both decoding paths treat
+// a document that lacks that key alike.
+func undeclaredRequiredCase(i int) *sem.Case {
+	obj := &sg.Schema{Types: []string{"object"}, Props: []sg.Prop{{Name: "name", S: &sg.Schema{Types: []string{"string"}}}, {Name: "n", S: &sg.Schema{Types: []string{"integer"}}}}, Required: []string{"name", "kind"}}
+	switch i % 4 {
+	case 0:
+		obj.AddProps = &sg.Schema{Types: []string{"string"}}
+	case 1:
+		obj.AddProps = &sg.Schema{Types: []string{"integer"}}
+	case 2:
+		obj.AddPropsBool = sg.Bp(true)
+	}
+	root := obj
+	if (i/4)%2 == 1 {
+		root = &sg.Schema{Types: []string{"object"}, Props: []sg.Prop{{Name: "labels", S: obj}, {Name: "list", S: &sg.Schema{Types: []string{"array"}, Items: obj}}}}
+	}
+	c := &sem.Case{Root: root, Sig: fmt.Sprintf("undeclared-required/%d", i%8), NoAuto: true, Args: []string{"--extra-imports"}}
+	wrap := func(o jsonx.Obj) jsonx.Obj {
+		if root != obj {
+			return jsonx.Obj{{K: "labels", V: o}, {K: "list", V: []any{o}}}
+		}
+		return o
+	}
+	kind := any("k")
+	if i%4 == 1 {
+		kind = jsonx.N(3)
+	}
+	for _, d := range []jsonx.Obj{{{K: "name", V: "x"}, {K: "kind", V: kind}}, {{K: "name", V: "x"}}, {{K: "kind", V: kind}}, {}, {{K: "name", V: "x"}, {K: "kind", V: kind}, {K: "n", V: jsonx.N(1)}}} {
+		c.Docs = append(c.Docs, docgen.Doc{V: wrap(d), Class: "formatparity", Label: "undeclared-required"})
 	}
 	return c
 }
